@@ -1,13 +1,101 @@
 import ShredModel.Lemmas.PExec
+import ShredModel.Lemmas.PAccept
 /-!
 # C14 — a panicking system is contained
 
-`PTraces pan t l o`: `l` is a possible event sequence of task `t` when exactly the instances in
-`pan` panic inside `run`; `o` tells whether a panic leaves the task. `par` lets the sibling
-run on (rayon's `join` semantics), `seq` stops at the first panicking child.
+Two layers.
+
+**What the driver checks.** `Accepted t l o`: the panic-aware acceptor (`PR.run`, the function
+the driver executes on every recorded log, injected panics included) accepts `l` for task `t`
+with outcome `o` (`true` = a panic leaves the dispatch). The acceptor follows the code: a `seq`
+(stage loop, group loop, thread-local loop) stops at the first part that ended in a panic; at a
+`par` the started siblings run to their own end and — as observed of rayon, which runs several
+groups of a stage in one sequential chunk — groups that were never started may be left out once
+a sibling has panicked; a batch controller may panic whenever no inner system is inside its
+window. For **every** accepted log:
+
+* `C14_panic_reported_iff` — a panic reaches the caller iff some system was unwound;
+* `C14_dependents_dont_run` — nothing ordered after an unwound system (dependency, barrier,
+  later in its group, later stage, thread-local, inside or outside batches) starts;
+* `C14_at_most_once` — no instance starts twice;
+* `C14_nothing_left_open` — every window that was opened is closed (data dropped normally or by
+  unwinding): replayed on the world model no borrow is outstanding.
+
+The plan is not changed by a dispatch, so the next dispatch is accepted from `t.toPR` again and
+C04 applies to it (`reusable` is definitional in the model; the engine checks it on the crate).
+
+**The declarative semantics** `PTraces pan t l o` (which instances panic is a parameter) with the
+same three statements, kept as the readable specification.
 -/
 namespace Shred
-variable {ι : Type} [DecidableEq ι] {pan : ι → Prop}
+variable {ι : Type} [DecidableEq ι]
+
+/-- the driver's acceptor accepts log `l` for one dispatch of `t`, with outcome `o` -/
+def Accepted (t : Task ι) (l : List (PEv ι)) (o : Bool) : Prop := t.toPR.run l = some o
+
+instance (t : Task ι) (l : List (PEv ι)) (o : Bool) : Decidable (Accepted t l o) := by
+  unfold Accepted; infer_instance
+
+theorem accepted_iff (t : Task ι) (l : List (PEv ι)) (o : Bool) :
+    Accepted t l o ↔ ∃ r', t.toPR.steps l = some r' ∧ r'.finalOk false = true ∧ o = r'.hasPanic := by
+  unfold Accepted
+  rw [PR.run_eq]
+  cases h : t.toPR.steps l with
+  | none => simp
+  | some r' =>
+    simp only [Option.bind_some]
+    by_cases hf : r'.finalOk false = true
+    · rw [if_pos hf]
+      constructor
+      · intro e; exact ⟨r', rfl, hf, by cases e; rfl⟩
+      · rintro ⟨r'', e1, _, e2⟩; cases e1; rw [e2]
+    · rw [if_neg hf]
+      constructor
+      · intro e; cases e
+      · rintro ⟨r'', e1, hf', _⟩; cases e1; exact absurd hf' hf
+
+/-- **C14 (propagation).** -/
+theorem C14_panic_reported_iff {t : Task ι} {l : List (PEv ι)} {o : Bool} (h : Accepted t l o) :
+    o = true ↔ ∃ s, PEv.P s ∈ l := by
+  obtain ⟨r', hs, _, ho⟩ := (accepted_iff t l o).mp h
+  rw [ho, PR.hasPanic_steps _ _ _ hs, hasPanic_toPR]
+  simp
+
+/-- **C14 (dependents do not run).** -/
+theorem C14_dependents_dont_run {t : Task ι} {l : List (PEv ι)} {o : Bool} (h : Accepted t l o)
+    (hnd : t.sys.Nodup) (x y : ι) (hb : Before t x y) (hp : PEv.P x ∈ l) : PEv.F y ∉ l := by
+  obtain ⟨r', hs, _, _⟩ := (accepted_iff t l o).mp h
+  exact dependents_dont_start hb hs hnd hp
+
+/-- **C14 (no system runs more than once).** -/
+theorem C14_at_most_once {t : Task ι} {l : List (PEv ι)} {o : Bool} (h : Accepted t l o)
+    (hnd : t.sys.Nodup) (x : ι) : l.count (PEv.F x) ≤ 1 := by
+  obtain ⟨r', hs, _, _⟩ := (accepted_iff t l o).mp h
+  exact PR.count_F_le_one _ hs (by rw [insts_toPR]; exact hnd) x
+
+/-- **C14 (nothing is left borrowed).** -/
+theorem C14_nothing_left_open {t : Task ι} {l : List (PEv ι)} {o : Bool} (h : Accepted t l o)
+    (x : ι) (hx : PEv.F x ∈ l) : PEv.D x ∈ l ∨ PEv.P x ∈ l := by
+  obtain ⟨r', hs, hf, _⟩ := (accepted_iff t l o).mp h
+  exact PR.closed_of_final _ false hs hf x hx
+
+/-- every event of an accepted log belongs to an instance of the plan -/
+theorem C14_events_of_plan {t : Task ι} {l : List (PEv ι)} {o : Bool} (h : Accepted t l o)
+    (e : PEv ι) (he : e ∈ l) : e.sys ∈ t.sys := by
+  obtain ⟨r', hs, _, _⟩ := (accepted_iff t l o).mp h
+  simpa [insts_toPR] using PR.steps_ev_sys _ hs e he
+
+/-- non-vacuity: stage `[[0],[1]]` then system `2`; `0` panics, its sibling `1` still runs, `2`
+(ordered after both) does not; and the rayon behaviour that a sibling that never started is
+left out is accepted too -/
+example : Accepted (.seq (.par (.leaf 0) (.leaf 1)) (.leaf 2)) [.F 0, .F 1, .P 0, .D 1] true ∧
+    Accepted (.seq (.par (.leaf 0) (.leaf 1)) (.leaf 2)) [.F 0, .P 0] true ∧
+    (.seq (.par (.leaf 0) (.leaf 1)) (.leaf 2) : Task Nat).toPR.run [.F 0, .P 0, .F 2, .D 2] = none ∧
+    Accepted (.seq (.par (.leaf 0) (.leaf 1)) (.leaf 2)) [.F 1, .F 0, .D 0, .D 1, .F 2, .D 2] false := by
+  decide
+
+/-! ### the declarative semantics -/
+variable {pan : ι → Prop}
 
 /-- a panic reaches the caller iff some system emitted `P` … -/
 theorem C14_panicked_iff {t : Task ι} {l : List (PEv ι)} {o : Bool} (h : PTraces pan t l o) :
@@ -17,14 +105,18 @@ theorem C14_panicked_iff {t : Task ι} {l : List (PEv ι)} {o : Bool} (h : PTrac
 theorem C14_payload_source {t : Task ι} {l : List (PEv ι)} {o : Bool} (h : PTraces pan t l o) :
     o = true → ∃ s, pan s ∧ PEv.P s ∈ l := panic_source h
 
-/-- no system ordered after a panicking one (dependency, barrier, later in its group, later
-stage, thread-local) runs in that dispatch -/
-theorem C14_dependents_dont_run {t : Task ι} {l : List (PEv ι)} {o : Bool}
+theorem C14_dependents_dont_run_spec {t : Task ι} {l : List (PEv ι)} {o : Bool}
     (h : PTraces pan t l o) (hnd : t.sys.Nodup) (x y : ι) (hb : Before t x y) (hp : PEv.P x ∈ l) :
     PEv.F y ∉ l := dependents_dont_run h hnd x y hb hp
 
 end Shred
 
+#print axioms Shred.accepted_iff
+#print axioms Shred.C14_panic_reported_iff
+#print axioms Shred.C14_dependents_dont_run
+#print axioms Shred.C14_at_most_once
+#print axioms Shred.C14_nothing_left_open
+#print axioms Shred.C14_events_of_plan
 #print axioms Shred.C14_panicked_iff
 #print axioms Shred.C14_payload_source
-#print axioms Shred.C14_dependents_dont_run
+#print axioms Shred.C14_dependents_dont_run_spec
